@@ -146,8 +146,8 @@ def answer (cfg : Cfg) (d : Nat) (raw : Bytes) : J :=
   match parseEthernet cfg d raw with
   | .error e => J.mk ([("exc", J.str e.toString)] ++ knownJ e)
   | .ok f =>
-    -- pack(): modelled for chains of phase-1 classes; str()/dump(): modelled for every chain without an opaque (MPTCP) layer
-    let pk := if f.hasForeign then J.null else match packF none f with
+    -- pack(): modelled for chains of phase-1 classes and mpls / eapol / eap behind the frame-level headers; str()/dump(): modelled for every chain without an opaque (MPTCP) layer
+    let pk := if !f.packModelled then J.null else match packF none f with
       | .ok b => J.ofBytes b
       | .error e => excJ e.toString
     let pr := match printF cfg f with
